@@ -29,6 +29,35 @@ def ity(t):
     return int(m.group(1))
 
 
+FLOAT_W = {"float": 32, "double": 64}
+FBINOPS = {"fadd": "fadd", "fsub": "fsub", "fmul": "fmul", "fdiv": "fdiv"}
+FPREDS = {"oeq", "one", "olt", "ole", "ogt", "oge", "ord", "ueq", "une", "ult", "ule", "ugt", "uge", "uno"}
+
+
+def vty(t):
+    """width of an integer OR float type (a float value is its bit pattern)"""
+    if t in FLOAT_W:
+        return FLOAT_W[t]
+    return ity(t)
+
+
+def float_const_bits(tok, w):
+    """LLVM float literal -> bit pattern at width w (decimal literals are exact doubles; hex literals are double bits)"""
+    import struct
+    if re.fullmatch(r"0x[0-9A-Fa-f]{16}", tok):
+        d = struct.unpack("<d", struct.pack("<Q", int(tok, 16)))[0]
+    elif re.fullmatch(r"-?\d+\.\d+e[+-]\d+", tok):
+        d = float(tok)
+    else:
+        raise Unsupported("float constant " + tok)
+    if w == 64:
+        return struct.unpack("<Q", struct.pack("<d", d))[0]
+    f = struct.unpack("<f", struct.pack("<f", d))[0]
+    if f != d and d == d:
+        raise Unsupported("float constant not exact at float: " + tok)
+    return struct.unpack("<I", struct.pack("<f", d))[0]
+
+
 def parse_functions(text):
     """-> {name: (ret type, [(ty, reg)], [instruction lines])} for every `define`"""
     out = {}
@@ -74,10 +103,19 @@ def translate_function(name, lean_name, ret, params, body):
     env = {}
     sig = []
     for k, (ty, reg) in enumerate(params):
-        w = ity(ty)
+        w = vty(ty)
         env[reg] = ("(some a%d)" % k, w)
         sig.append("(a%d : BitVec %d)" % (k, w))
-    rw = ity(ret)
+    rw = vty(ret)
+
+    def fopnd(tok, w):
+        tok = tok.rstrip(",")
+        if tok in env:
+            e, w2 = env[tok]
+            if w2 != w:
+                raise Unsupported("width mismatch on " + tok)
+            return e
+        return "(some (BitVec.ofNat %d %d))" % (w, float_const_bits(tok, w))
 
     def opnd(tok, w):
         tok = tok.rstrip(",")
@@ -142,6 +180,48 @@ def translate_function(name, lean_name, ret, params, body):
         m = re.fullmatch(r'call void @"([^"]+)"\(i1 (\S+)\)', s)
         if m and m.group(1) in ASSERTS:
             out.append("  assert %s %s" % (ASSERTS[m.group(1)], opnd(m.group(2), 1)))
+            continue
+        # ---- float subset (no fast-math flags: the patterns below do not accept any)
+        m = re.fullmatch(r"(%\d+) = (fadd|fsub|fmul|fdiv) (float|double) (\S+), (\S+)", s)
+        if m:
+            w = FLOAT_W[m.group(3)]
+            env[m.group(1)] = ("v" + m.group(1)[1:], w)
+            out.append("  let v%s := %s %s %s" % (m.group(1)[1:], FBINOPS[m.group(2)], fopnd(m.group(4), w), fopnd(m.group(5), w)))
+            continue
+        m = re.fullmatch(r"(%\d+) = fneg (float|double) (\S+)", s)
+        if m:
+            w = FLOAT_W[m.group(2)]
+            env[m.group(1)] = ("v" + m.group(1)[1:], w)
+            out.append("  let v%s := fneg %s" % (m.group(1)[1:], fopnd(m.group(3), w)))
+            continue
+        m = re.fullmatch(r"(%\d+) = fcmp (\w+) (float|double) (\S+), (\S+)", s)
+        if m and m.group(2) in FPREDS:
+            w = FLOAT_W[m.group(3)]
+            env[m.group(1)] = ("v" + m.group(1)[1:], 1)
+            out.append("  let v%s := fcmp .%s %s %s" % (m.group(1)[1:], m.group(2), fopnd(m.group(4), w), fopnd(m.group(5), w)))
+            continue
+        m = re.fullmatch(r"(%\d+) = (sitofp|uitofp) (i\d+) (\S+) to (float|double)", s)
+        if m:
+            w1, w2 = ity(m.group(3)), FLOAT_W[m.group(5)]
+            env[m.group(1)] = ("v" + m.group(1)[1:], w2)
+            out.append("  let v%s := %s %d %s" % (m.group(1)[1:], m.group(2), w2, opnd(m.group(4), w1)))
+            continue
+        m = re.fullmatch(r"(%\d+) = (fptosi|fptoui) (float|double) (\S+) to (i\d+)", s)
+        if m:
+            w1, w2 = FLOAT_W[m.group(3)], ity(m.group(5))
+            env[m.group(1)] = ("v" + m.group(1)[1:], w2)
+            out.append("  let v%s := %s %d %s" % (m.group(1)[1:], m.group(2), w2, fopnd(m.group(4), w1)))
+            continue
+        m = re.fullmatch(r"(%\d+) = (fpext|fptrunc) (float|double) (\S+) to (float|double)", s)
+        if m:
+            w1, w2 = FLOAT_W[m.group(3)], FLOAT_W[m.group(5)]
+            env[m.group(1)] = ("v" + m.group(1)[1:], w2)
+            out.append("  let v%s := %s %d %s" % (m.group(1)[1:], m.group(2), w2, fopnd(m.group(4), w1)))
+            continue
+        m = re.fullmatch(r"ret (float|double) (\S+)", s)
+        if m:
+            out.append("  ret %s" % fopnd(m.group(2), FLOAT_W[m.group(1)]))
+            returned = True
             continue
         m = re.fullmatch(r"ret (i\d+) (\S+)", s)
         if m:
